@@ -25,12 +25,19 @@ REPOTESTS = True
 
 RULE = ('systems are generated round-robin over 9 cell kinds (7 crystal families in LAMMPS form, strongly tilted, '
         'randomly rotated) x {right-handed, left-handed by reversed c / exchanged a,b / mirror image} x 3 origin classes '
-        'x 3 length scales x 8 periodicity settings (wrap; normalise: fully periodic only) x 4 atom-count classes '
+        'x 10 length scales (the same crystal in m, cm, mm, um, nm, angstrom, bohr, pm, fm working units and 1e4) x 8 periodicity settings (wrap; normalise: fully periodic only) x 4 atom-count classes '
         '(1, 2, 3-12, 13-40) x 5 placement profiles (inside, within +-2 cells, +-50 cells, exactly on faces of the '
         'cell or of a distant image, mixed incl. 1e-13..1e-5 from a face), each atom carrying int, float-vector, '
         '(float, 3x3, bool) extra properties.  A wrap case is non-trivial when at least one atom starts outside the '
         'cell or on a face; a normalise case when the cell is left-handed, not in LAMMPS form, or an atom starts '
-        'outside.  distinct = distinct fingerprint of (vectors, origin, pbc, positions).')
+        'outside.  distinct = distinct fingerprint of (vectors, origin, pbc, positions).  Group hist: 11 call histories on ONE '
+        'System/Box (wrap, move atoms, wrap; wrap, replace cell, wrap; scaled read, box_set(scale=True), wrap; strain loop; '
+        'wrap, change pbc, wrap; scaled read / box_set(scale=True) / wrap before normalize; normalize twice; the normalised '
+        'output moved, wrapped, re-celled and normalised again; Box.set / Box.vects behind the System, then wrap) x 13-entry '
+        'scale table x 7 kinds of replacement cell (strains 1e-9..0.2, rotated, unrelated, re-handed, rescaled) x 3 ways of '
+        'giving the cell x 3 ways of moving atoms, every wrap / box_set / normalize call of a history judged by the same '
+        'monitors from its own before/after snapshot.  Group units: the cell is built with unitconvert.set_in_units under '
+        'real working length units (reset_units(length=...)), then normalised / wrapped with a history.')
 ASSUMPTIONS = ['cells are non-degenerate with volume >= 10% of a*b*c; angles within [50,125] degrees or LAMMPS tilts <= 2 box lengths',
                'an atom closer to a face than 1e-9*(1 + |origin|/Lmin + max|relative coordinate|) may end on either side; '
                'inside is judged inclusively with that bound in oracle-computed relative coordinates (never Box.inside)',
@@ -39,9 +46,12 @@ ASSUMPTIONS = ['cells are non-degenerate with volume >= 10% of a*b*c; angles wit
                'normalise is judged only for fully periodic input (the quantifier of the property)',
                'true nearest-image distances are compared for all pairs of systems of <= 12 atoms and for a fixed sample '
                'of 66 pairs of larger ones',
+               'every bound is a pure number (relative coordinates, rotation entries, angles) or a multiple of the cell size; '
+               'nothing in the oracle is an absolute length, so the same judgement applies from 1e-10 to 1e5 per angstrom',
+               'atoms are moved between the calls of a history by the workload itself (atoms_prop / view); that step is not judged',
                'oracle shares numpy/LAPACK with the code under test']
 
-STATE = {'in_normalize': 0, 'rec': None}
+STATE = {'in_normalize': 0, 'rec': None, 'hist': None}     # hist: None or dict(kind, replaced) set by the history workload
 SYSTEM_PY = 'atomman/core/System.py'
 NORMALIZE_PY = 'atomman/lammps/normalize.py'
 # anchored statements whose execution is required, located by their text (after the given marker) so that the
@@ -131,6 +141,13 @@ def judge_wrap(rec, before, after, flags, entry):
     tolr = 1e-9 * osc
     K = entry + ':'
     rec.count('monitor:' + entry)
+    if np.abs(v0).max() < 1e-7:
+        rec.count('monitor:' + entry + ':cell-below-1e-7')
+    h = STATE['hist']
+    if h is not None:
+        rec.count('monitor:' + entry + ':in-history')
+        if h.get('replaced'):
+            rec.count('monitor:' + entry + ':after-cell-replaced')
 
     # (1) each atom moved by whole cell vectors, along periodic directions only
     f = W.lattice_coeffs(before['pos'] - after['pos'], v0)          # pos_before = pos_after + f . vects_before
@@ -220,6 +237,8 @@ def install_box_set_monitor(rec, am):
             osc1 = osc + np.abs(after['origin']).max() / np.linalg.norm(after['vects'], axis=1).min()
             rec.close(1e-9 * osc1, rel1, rel0, 'box_set(scale=True) holds the relative coordinates', 'box_set:scale-true')
             rec.count('monitor:box_set-scale-true')
+            if np.abs(old['vects']).max() < 1e-7:
+                rec.count('monitor:box_set-scale-true:cell-below-1e-7')
         else:
             rec.check(np.array_equal(after['pos'], old['pos']), 'box_set(scale=False) holds the Cartesian coordinates', 'box_set:scale-false')
             rec.count('monitor:box_set-scale-false')
@@ -232,6 +251,10 @@ def install_box_set_monitor(rec, am):
 def judge_normalize(rec, system, before, new, T, want_T):
     K = 'normalize:'
     rec.count('monitor:normalize')
+    if np.abs(before['vects']).max() < 1e-7:
+        rec.count('monitor:normalize:cell-below-1e-7')
+    if STATE['hist'] is not None:
+        rec.count('monitor:normalize:in-history')
     # (a) the input is left as it was, and the result is a separate object
     now = snapshot(system)
     unchanged = (np.array_equal(now['vects'], before['vects']) and np.array_equal(now['origin'], before['origin'])
@@ -269,11 +292,11 @@ def judge_normalize(rec, system, before, new, T, want_T):
 
     # (d) the returned transform is a proper rotation taking the (c-reversed) old cell to the new one
     R = W.rotation_between(ref_v, nv)
-    rec.check(G.is_rotation(R, 1e-8), 'old (c-reversed if left-handed) and new cell differ by a proper rotation', K + 'cell-not-rotated' + hk, R=R, **detail)
+    rec.check(W.is_proper_rotation(R, 1e-8), 'old (c-reversed if left-handed) and new cell differ by a proper rotation', K + 'cell-not-rotated' + hk, R=R, **detail)
     if want_T:
         Tm = np.asarray(T, float)
         if rec.check(Tm.shape == (3, 3), 'returned transform is 3x3', K + 'transform-shape', shape=Tm.shape):
-            rec.check(G.is_rotation(Tm, 1e-8), 'returned transform is a proper rotation', K + 'transform-not-proper' + hk, T=Tm, **detail)
+            rec.check(W.is_proper_rotation(Tm, 1e-8), 'returned transform is a proper rotation', K + 'transform-not-proper' + hk, T=Tm, **detail)
             rec.close(1e-8 * L, ref_v @ Tm.T, nv, 'returned transform maps the (c-reversed if left-handed) old cell vectors onto the new ones',
                       K + 'transform-maps-cell' + hk, T=Tm, **detail)
             rec.count('normalize:transform-checked')
